@@ -552,7 +552,7 @@ int main(int argc, char **argv)
     if ((e = getenv("VERIF_MUTD"))) MUT_D = atoi(e);
     if (vf_g.replay) replay_main();
     int deaths = vf_run_workers(worker);
-    static char bound[1200];
+    static char bound[2600];
     snprintf(bound, sizeof bound,
              "every sequence of <= %d tokens over the %d-token hostile alphabet framed as object and as array (both init kinds up to length 3), every unframed "
              "sequence of <= 3 tokens, every framed sequence of <= %d tokens over the %d-token core alphabet; every valid document with <= %d value tokens over 12 "
@@ -569,6 +569,9 @@ int main(int argc, char **argv)
     vf_evidence_spec es;
     memset(&es, 0, sizeof es);
     es.c_states = CT_INPUTS; es.c_transitions = CT_EVALS; es.c_validated = CT_EVALS;
+    snprintf(bound + strlen(bound), sizeof bound - strlen(bound), "%s", "; later additions: every string / bytes / name length 0..1100 (thorough 0..70000) in every prefix width, exact and one byte short; a complete root followed by 1..262144 junk "
+             "bytes; a string, a bytes value and a name of INT32_MAX and INT32_MAX - 1 bytes in a lazily backed 2 GiB mapping; every pair of small sibling subtrees with all mutants and every "
+             "triple; name pairs with the same first byte and different lengths");
     es.bound = bound;
     es.rule = "exhaustive enumeration (prefix tree of token sequences; grammar-directed documents; all mutants); states = distinct inputs enumerated, transitions = real init+verify executions, each compared with the reference recogniser";
     es.assumptions = assumptions; es.nassumptions = 3;
